@@ -290,7 +290,7 @@ CHECKS = {
     ),
     "C01": dict(
         pkg="c01", race=False, shards=(4, 16), timeout_s=(600, 3600), parallel=4,
-        technique="porcupine linearizability check of recorded client-boundary histories against a counting gate (held, limit) + offline interval sweep (lower/upper bounds of simultaneous holders) over long histories",
+        technique="porcupine linearizability check of recorded client-boundary histories against a counting gate (held, limit) + offline interval sweep (lower/upper bounds of simultaneous holders) over long histories + at-hook assertion in an injected strategy wrapper that every SetLimit is applied while the estimate it carries is still in force, with sequential probes at rest",
         level_text="M1: 2-8 goroutines drive DefaultLimiter over Simple/Precise (scripted estimate trajectory incl. 0/negative/repeats, or AIMD/Gradient2 "
                    "underneath, window pre-filled so sample-driven SetLimit happens inside the history) and PreciseStrategy directly (with concurrent "
                    "SetLimit); call/return events on one logical clock, completions split into REL and SET at the recorded entry of the algorithm's "
@@ -298,8 +298,10 @@ CHECKS = {
                    "Unknown = inconclusive). M2: 2-16 goroutines x 20k-100k ops at a constant limit 1-3: holders lower bound (grant returned .. completion "
                    "called) must never exceed the limit and every refused call must overlap an instant where the upper bound (acquire called .. completion "
                    "returned) reached the limit. A verif yield inside the simple strategy's check-then-add is active in half of the runs. Exploration of "
-                   "the interleavings a 16-core scheduler produces.",
-        require=["m1_histories", "m1_histories_linearizable", "m1_overlapping_operation_pairs", "m1_sample_driven_limit_updates", "m2_runs", "m2_refusals_checked"],
+                   "the interleavings a 16-core scheduler produces. M3: 4-12 goroutines close sample windows back to back (scripted trajectory or AIMD) over a strategy "
+                   "wrapper that is slow inside SetLimit; at the instant each SetLimit(v) is applied the algorithm's estimate must still be v, and at rest after every "
+                   "burst the enforced limit equals the estimate and a sequential probe is granted exactly that many times.",
+        require=["m1_histories", "m1_histories_linearizable", "m1_overlapping_operation_pairs", "m1_sample_driven_limit_updates", "m2_runs", "m2_refusals_checked", "m3_setlimit_applications_checked", "m3_probes_at_rest"],
         rule="M1 history = (target, algorithm, 2-8 goroutines x 2-10 pre-drawn ops); M2 run = (target, limit, goroutines, hold style); non-trivial = at least "
              "one overlapping operation pair (M1) / grants and refusals both occurred (M2); distinct = distinct (config, op count, overlaps).",
         assumptions=COMMON_ASSUME + ["porcupine v1.3.0; checker timeout 10 s = inconclusive", "logical timestamps come from one atomic counter incremented immediately before the call and immediately after the return"],
